@@ -43,14 +43,17 @@ ANSI = re.compile(r"\x1b\[[0-9;]*m")
 # the one invalid entry
 
 
-def bad_syntax(rng):
+N_SYNTAX, N_BOOK = 9, 12
+
+
+def bad_syntax(rng, k=None):
     """(class, text, defect_line_offset): entries the parser must reject; lines up to the defect line are well-formed."""
     acct = rng.choice(["Assets:Bank", "資産:銀行", "Dépenses:Café", "A"])
     c = rng.choice(["USD", "円", "€"])
     pre_posts = ["    %s  %d %s\n" % (rng.choice(G.ACCOUNTS), rng.randint(1, 9), c) for _ in range(rng.randint(0, 3))]
     meta = ["    ; note 日本語\n"] if rng.random() < 0.4 else []
     head = "2024/02/%02d %s\n" % (rng.randint(1, 28), rng.choice(["x", "買い物 🛒", "Café ☕", "* (9) p"]))
-    k = rng.randrange(9)
+    k = rng.randrange(N_SYNTAX) if k is None else k
     if k == 0:
         lines = [head] + meta + pre_posts + ["    %s  10 %s ==\n" % (acct, c), "    B\n"]
         return "posting-trailing-garbage", "".join(lines), len(meta) + len(pre_posts) + 1
@@ -77,7 +80,7 @@ def bad_syntax(rng):
     return "dangling-cost", "".join(lines), len(meta) + len(pre_posts) + 1
 
 
-def bad_bookkeeping(rng, accounts, comms, canonical_names, alias_names):
+def bad_bookkeeping(rng, accounts, comms, canonical_names, alias_names, k=None):
     """(class, text, expected BookKeepError kind or None): syntactically valid entries that book-keeping must reject."""
     a1, a2 = rng.sample(accounts, 2)
     c = rng.choice(comms)
@@ -85,7 +88,7 @@ def bad_bookkeeping(rng, accounts, comms, canonical_names, alias_names):
     head = "2024/03/%02d %s\n" % (rng.randint(1, 28), rng.choice(["bad", "買い物 🛒", "! (7) Café ☕"]))
     meta = "    ; note é\n" if rng.random() < 0.4 else ""
     n = rng.randint(2, 900)
-    k = rng.randrange(12)
+    k = rng.randrange(N_BOOK) if k is None else k
     if k == 0:
         return "unbalanced", head + meta + "    %s  %d %s\n    %s  -%d %s\n" % (a1, n, c, a2, n - 1, c), "UnbalancedPostings"
     if k == 1:
@@ -129,12 +132,27 @@ class Case:
     pass
 
 
-def build_case(rng, idx):
-    """one file tree with exactly one invalid entry."""
-    n = rng.randint(0, 7)
-    entries = G.gen_entries(rng, n) if n else []
+FIXED_ENTRIES = [
+    ("comment", "; 先頭コメント ✓\n# second line\n"),
+    ("account", "account 資産:銀行\n    note メインバンク\n    alias 銀行\n"),
+    ("txn", "2024/01/05 * 買い物 🛒 ; メモ\n    ; :tag:\n    Expenses:Food   1,200 円\n    銀行\n"),
+    ("commodity", "commodity €\n    format 1,000.00 €\n"),
+    ("txn", "2024-01-06=2024-01-08 ! (7) Café ☕\n    Dépenses:Café  3.50 € @ 160 円\n    ; note é\n    銀行  -560 円 = -1,760 円\n"),
+    ("txn", "2024/01/07 x\n\tA\t(1 USD + 2 USD)\n\tB\n"),
+]
+
+
+def build_case(rng, idx, fixed=None):
+    """one file tree with exactly one invalid entry. `fixed` = (pos, syntactic, class index, crlf, layout) for the
+    exhaustive placement stream over FIXED_ENTRIES."""
+    if fixed:
+        entries = list(FIXED_ENTRIES)
+        pos = fixed[0]
+    else:
+        n = rng.randint(0, 7)
+        entries = G.gen_entries(rng, n) if n else []
+        pos = rng.randint(0, len(entries))
     # names declared / used so far, for the alias-rule defects
-    pos = rng.randint(0, len(entries))
     canon, aliases = [], []
     accounts_used = set()
     for kind, text in entries[:pos]:
@@ -152,13 +170,13 @@ def build_case(rng, idx):
                     a = re.split(r"  |\t", s)[0]
                     accounts_used.add(a)
     canon_names = sorted(a for a in set(canon) | accounts_used if a not in aliases)
-    syntactic = rng.random() < 0.45
+    syntactic = fixed[1] if fixed else rng.random() < 0.45
     if syntactic:
-        cls, bad, defect = bad_syntax(rng)
+        cls, bad, defect = bad_syntax(rng, fixed[2] if fixed else None)
         expect_kind = None
     else:
         accts = [a for a in G.ACCOUNTS if a not in aliases]
-        cls, bad, expect_kind = bad_bookkeeping(rng, accts, G.COMMS[:4], canon_names, aliases)
+        cls, bad, expect_kind = bad_bookkeeping(rng, accts, G.COMMS[:4], canon_names, aliases, fixed[2] if fixed else None)
         defect = None
     # assemble the load-order sequence with separators; the bad entry is element `pos`
     seq = [t for _, t in entries]
@@ -174,7 +192,7 @@ def build_case(rng, idx):
             seps.append(rng.choice(["", "", "\n", "  \n"]))
     lead = rng.choice(["", "", "\n", "\n\n", "  \n", "; 先頭コメント ✓\n\n", "\r\n" if False else "\n"])
     # layout: which contiguous blocks of the sequence go to which file
-    layout = rng.choice(["root", "root", "child", "nested", "glob"])
+    layout = fixed[4] if fixed else rng.choice(["root", "root", "child", "nested", "glob"])
     m = len(seq)
     files = {}
     chunks = []   # (file, [indices])
@@ -184,6 +202,8 @@ def build_case(rng, idx):
         plan = {"main.ledger": [("chunk", 0)]}
     elif layout == "child":
         i, j = sorted(rng.sample(range(m + 1), 2))
+        if fixed:
+            i, j = max(0, pos - 1), min(m, pos + 2)
         chunks = [("main.ledger", list(range(0, i))), ("child.ledger", list(range(i, j))), ("main.ledger", list(range(j, m)))]
         plan = {"main.ledger": [("chunk", 0), ("include", "child.ledger"), ("chunk", 2)], "child.ledger": [("chunk", 1)]}
     elif layout == "nested":
@@ -195,7 +215,7 @@ def build_case(rng, idx):
         i, j = sorted(rng.sample(range(m + 1), 2))
         chunks = [("inc/a.ledger", list(range(0, i))), ("inc/b.ledger", list(range(i, j))), ("main.ledger", list(range(j, m)))]
         plan = {"main.ledger": [("include", "inc/*.ledger"), ("chunk", 2)], "inc/a.ledger": [("chunk", 0)], "inc/b.ledger": [("chunk", 1)]}
-    crlf = rng.random() < 0.3
+    crlf = fixed[3] if fixed else rng.random() < 0.3
     bad_file = None
     first = last = None
     texts = {}
@@ -336,6 +356,14 @@ def run(chk):
     quick = chk.tier == "quick"
     n = 1200 if quick else 50000
     cases = [build_case(rng, i) for i in range(n)]
+    # exhaustive placement: every defect class at every position of a fixed 6-entry file x {LF, CRLF} x {root, included}
+    for syntactic, ncls in ((True, N_SYNTAX), (False, N_BOOK)):
+        for k in range(ncls):
+            for pos in range(len(FIXED_ENTRIES) + 1):
+                for crlf in (False, True):
+                    for layout in ("root", "child"):
+                        cases.append(build_case(rng, len(cases), fixed=(pos, syntactic, k, crlf, layout)))
+                        cases[-1].exhaustive = True
     # exhaustive placement: bad entry at every position of a 6-entry file x {LF, CRLF} x {root, included}
     # (covered statistically above; the thorough tier adds volume)
     lines, clean_lines = [], []
@@ -353,7 +381,10 @@ def run(chk):
     workdir = os.path.realpath(os.path.join(WORK, "c14", "cli"))
     os.makedirs(workdir, exist_ok=True)
     real_cases = [c for i, c in enumerate(cases) if i % real_every == 0]
-    real_lines = ["%s %s %s" % (c.id, G.cmdspec("balance", "@"), G.files_words(c.files, c.root)) for c in real_cases]
+    real_lines = []
+    for i, c in enumerate(real_cases):
+        c.real_cmd = (["balance", "register", "accounts", "flatten"] if c.syntactic else ["balance", "register", "eval"])[i % (4 if c.syntactic else 3)]
+        real_lines.append("%s %s %s" % (c.id, G.cmdspec(*G.CLI_CMDS[c.real_cmd]), G.files_words(c.files, c.root)))
     real = G._run_one(HX, ["c06", "cli", OKANE, workdir, str(G.TIMEOUT_MS), str(G.JOBS)], real_lines, 3600) if real_lines else []
     chk.streams["one-bad-entry/real-fs-binary"] = len(real_lines)
 
@@ -387,6 +418,8 @@ def run(chk):
         chk.case((c.files, c.root), nontrivial=(c.first > 1 or c.bad_file != "main.ledger"))
         chk.traces += 1
         chk.count("class:" + c.cls)
+        if getattr(c, "exhaustive", False):
+            chk.count("stream:exhaustive-placement")
         chk.count("layout:" + c.layout)
         chk.count("crlf:%s" % c.crlf)
         chk.count("impl:" + kind + (":" + f.get("kind", "") if kind == "bk" else ""))
@@ -435,6 +468,15 @@ def run(chk):
                     mlines = [int(x) for x in m["lines"].split(";")] if m.get("lines", "-") != "-" else []
                     if mlines and locs and locs[0][1] != mlines[0]:
                         bad = "location line: impl %d, model %d" % (locs[0][1], mlines[0])
+                    elif mlines and locs and m.get("anns", "-") != "-":
+                        # column = 1 + characters between the start of that line and the first annotation's start
+                        tb = dec(m["text"]).encode("utf-8")
+                        q = int(m["anns"].split(";")[0].split("..")[0])
+                        bol = tb.rfind(b"\n", 0, q) + 1
+                        col = 1 + len(tb[bol:q].decode("utf-8", "replace"))
+                        chk.count("model:column-compared")
+                        if locs[0][2] != col:
+                            bad = "location column: impl %d, model %d" % (locs[0][2], col)
                     elif any(l not in gutter for l in mlines):
                         bad = "model's annotated lines %s not all shown (gutter %s)" % (mlines, gutter)
                     elif gutter and (min(gutter) < int(m["ls"]) or max(gutter) > int(m["last"])):
@@ -468,17 +510,17 @@ def run(chk):
         chk.traces += 1
         st = f.get("status", "?")
         stderr = ANSI.sub("", dec(f.get("err", "~")))
-        chk.count("binary:" + st)
+        chk.count("binary:%s:%s" % (c.real_cmd, st))
         c.expect_path = os.path.join(workdir, c.id, c.bad_file)
         kind = "parse" if "failed to parse file" in stderr else ("bk" if " --> " in stderr else "other")
         msg = None
         if st != "exit:1":
-            msg = "okane balance exit status %s on a file with an invalid entry" % st
+            msg = "okane %s exit status %s on a file with an invalid entry" % (c.real_cmd, st)
         else:
             msg = oracle(c, kind, None, stderr)
         if msg:
             chk.oracle_failures += 1
-            chk.violation("C14 fails (okane balance, real files): " + msg,
+            chk.violation("C14 fails (okane %s, real files): " % c.real_cmd + msg,
                           {"files": c.files, "root": c.root, "bad_entry": c.bad, "bad_file": c.bad_file, "entry_lines": [c.first, c.last],
                            "defect_line": c.defect_line, "class": c.cls, "stderr": stderr, "status": st,
                            "rerun": "echo '%s' | %s c06 cli %s %s 10000 1" % (real_lines[real_cases.index(c)], HX, OKANE, workdir)})
